@@ -3,8 +3,10 @@ package mempoolrig
 import (
 	"fmt"
 	"math/big"
+	"sort"
 
 	"github.com/lianxiangcloud/linkchain/libs/common"
+	lk "github.com/lianxiangcloud/linkchain/libs/cryptonote/types"
 	"github.com/lianxiangcloud/linkchain/types"
 
 	"verif/sim/kernel"
@@ -27,9 +29,12 @@ func senderOf(tx types.Tx) (common.Address, bool) {
 func (e *Engine) refreshOffer() {
 	e.offered = e.reapAll()
 	e.offeredBy = map[common.Address][]types.Tx{}
+	e.offeredPure = nil
 	for _, tx := range e.offered {
-		if from, ok := senderOf(tx); ok {
+		if from, _, _, ok := AcctPart(tx); ok {
 			e.offeredBy[from] = append(e.offeredBy[from], tx)
+		} else {
+			e.offeredPure = append(e.offeredPure, tx)
 		}
 	}
 }
@@ -41,6 +46,7 @@ func (e *Engine) refreshOffer() {
 // balance covers.
 func (e *Engine) checkOffer(txs types.Txs, what string, full bool) {
 	seen := map[common.Hash]bool{}
+	kiSeen := map[lk.Key]types.Tx{}
 	next := map[common.Address]uint64{}
 	spent := map[common.Address]*big.Int{}
 	for i, tx := range txs {
@@ -58,36 +64,42 @@ func (e *Engine) checkOffer(txs types.Txs, what string, full bool) {
 			e.Violate("offer-unaccepted", "offer-unaccepted", "%s offers %s for which no AddTx call has returned nil", what, e.txLabel(tx))
 			return
 		}
-		t, ok := tx.(*types.Transaction)
-		if !ok {
-			if OfferCheckOther != nil {
-				OfferCheckOther(e, tx, what)
-				if e.Stopped() {
+		for _, k := range keyImages(tx) {
+			if other, dup := kiSeen[k]; dup {
+				e.Violate("offer-key-image", "offer-key-image/shared", "%s offers %s and %s which carry the same key image %s", what, e.txLabel(other), e.txLabel(tx), kiLabel([]lk.Key{k}))
+				return
+			}
+			kiSeen[k] = tx
+			if e.U != nil {
+				if h, spent := e.U.KICommitted[k]; spent {
+					e.Violate("offer-key-image", "offer-key-image/spent", "%s offers %s whose key image %s is already spent on chain (by %s)", what, e.txLabel(tx), kiLabel([]lk.Key{k}), short(h))
 					return
 				}
 			}
-			continue
 		}
-		from, ok := senderOf(tx)
+		from, nonce, cost, ok := AcctPart(tx)
 		if !ok {
-			e.Violate("offer-unsigned", "offer-unsigned", "%s offers %s whose sender cannot be recovered", what, e.txLabel(tx))
-			return
+			if _, isU := tx.(*types.UTXOTransaction); !isU {
+				e.Violate("offer-unsigned", "offer-unsigned", "%s offers %s whose sender cannot be recovered", what, e.txLabel(tx))
+				return
+			}
+			continue
 		}
 		want, started := next[from]
 		if !started {
 			want = e.committedNonce(from)
 			spent[from] = new(big.Int)
 		}
-		if t.Nonce() != want {
+		if nonce != want {
 			kind := "gap"
-			if t.Nonce() < want {
+			if nonce < want {
 				kind = "stale-or-repeated-nonce"
 			}
 			e.Violate("offer-nonce", "offer-nonce/"+kind, "%s offers %s at position %d but the sender's next executable nonce there is %d (committed nonce %d)", what, e.txLabel(tx), i, want, e.committedNonce(from))
 			return
 		}
 		next[from] = want + 1
-		spent[from].Add(spent[from], Cost(tx))
+		spent[from].Add(spent[from], cost)
 		if bal := e.W.Led.Get(from).Balance; spent[from].Cmp(bal) > 0 {
 			e.Violate("offer-uncovered", "offer-uncovered", "%s offers %s at position %d: cumulative cost %v of the sender's offered run exceeds its committed balance %v", what, e.txLabel(tx), i, spent[from], bal)
 			return
@@ -95,9 +107,6 @@ func (e *Engine) checkOffer(txs types.Txs, what string, full bool) {
 	}
 }
 
-// OfferCheckOther lets other tx kinds (txgen) add their part of the offer
-// invariant (key images...).
-var OfferCheckOther func(e *Engine, tx types.Tx, what string)
 
 // prune removes from the live model what the node may legitimately have
 // dropped: consumed nonces, transactions older than an age limit, and
@@ -210,7 +219,16 @@ func (e *Engine) oracle(heavy bool) {
 		}
 	}
 
-	full := len(e.offered) >= mc.Size || len(e.offered) >= mc.MaxReapSize
+	goodOffered, utxoTypedGood := 0, 0
+	for _, l := range e.offeredBy {
+		goodOffered += len(l)
+		for _, tx := range l {
+			if tx.TypeName() == types.TxUTXO {
+				utxoTypedGood++
+			}
+		}
+	}
+	full := goodOffered >= mc.Size || len(e.offered) >= mc.MaxReapSize || utxoTypedGood >= mc.UTXOSize
 	if full {
 		e.C.Probe("pool-full")
 	}
@@ -271,8 +289,79 @@ func (e *Engine) oracle(heavy bool) {
 			return
 		}
 	}
+	e.pureDemands(off)
+	if e.Stopped() {
+		return
+	}
 	if heavy {
 		e.executeOffer()
+	}
+}
+
+// pureDemands is the offer-completeness half for spends without an account
+// input: accepted, no key image spent on chain, no rival accepted alongside,
+// younger than the age limit, the confidential list below its limits.
+func (e *Engine) pureDemands(off map[common.Hash]bool) {
+	if len(e.livePure) == 0 {
+		return
+	}
+	mc := e.W.Cfg.Mem
+	ms := make([]*MTx, 0, len(e.livePure))
+	for _, m := range e.livePure {
+		ms = append(ms, m)
+	}
+	sort.Slice(ms, func(i, j int) bool { return ms[i].Seq < ms[j].Seq })
+	holders := map[lk.Key]int{}
+	now := e.now()
+	for _, m := range ms {
+		if e.anySpent(m) || e.isCommitted(m) {
+			e.C.Probe("invalidated-spent")
+			m.Accepted = false
+			delete(e.livePure, m.Hash)
+			continue
+		}
+		if now-m.AcceptedAt >= e.dropGood {
+			e.C.Probe("excused-age-good")
+			m.Accepted = false
+			delete(e.livePure, m.Hash)
+			continue
+		}
+		for _, k := range m.KIs {
+			holders[k]++
+		}
+	}
+	fullPure := len(e.offeredPure) >= mc.Size || len(e.offeredPure) >= mc.UTXOSize
+	for _, m := range ms {
+		if !m.Accepted {
+			continue
+		}
+		amb := false
+		for _, k := range m.KIs {
+			if holders[k] > 1 {
+				amb = true
+			}
+		}
+		if amb {
+			e.C.Probe("ambiguous-same-key-image")
+			continue
+		}
+		if off[m.Hash] {
+			e.C.Probe("spend-on-offer")
+			continue
+		}
+		if !e.Opt.Liveness {
+			continue
+		}
+		if fullPure {
+			e.C.Probe("excused-utxo-list-full")
+			continue
+		}
+		if !e.Violate("not-offered", "spend-not-offered", "confidential spend %s (key image %s) was accepted %dms ago, none of its key images is spent on chain or held by another accepted spend, no size or age limit is in reach (confidential offer %d, Size %d, UTXOSize %d), yet Reap does not offer it", short(m.Hash), kiLabel(m.KIs), (now-m.AcceptedAt).Milliseconds(), len(e.offeredPure), mc.Size, mc.UTXOSize) {
+			m.Accepted = false
+			delete(e.livePure, m.Hash)
+			continue
+		}
+		return
 	}
 }
 
